@@ -31,14 +31,14 @@ func need(n, pos int, val byte, neg bool) MS { return MS{N: n, Pos: pos, Val: va
 // matcher atoms of the exhaustive scope
 func matcherAtoms() [][]MSet {
 	return [][]MSet{
-		nil, // no matcher: matches everything
-		{{Ms: []MS{need(1, 0, 'a', false)}}},                                       // first byte == a
-		{{Ms: []MS{need(1, 0, 'a', true)}}},                                        // first byte != a
-		{{Ms: []MS{need(2, 1, 'a', false)}}},                                       // second byte == a
-		{{Ms: []MS{need(1, 0, 'a', false)}, Not: true}},                            // not(first == a)
-		{{Ms: []MS{need(0, 0, 0, true)}}},                                          // never
-		{{Ms: []MS{need(2, 1, 'b', false)}}, {Ms: []MS{need(1, 0, 'b', false)}}},   // second==b OR first==b
-		{{Ms: []MS{need(1, 0, 'a', false), need(2, 1, 'b', false)}}},               // first==a AND second==b
+		nil,                                             // no matcher: matches everything
+		{{Ms: []MS{need(1, 0, 'a', false)}}},            // first byte == a
+		{{Ms: []MS{need(1, 0, 'a', true)}}},             // first byte != a
+		{{Ms: []MS{need(2, 1, 'a', false)}}},            // second byte == a
+		{{Ms: []MS{need(1, 0, 'a', false)}, Not: true}}, // not(first == a)
+		{{Ms: []MS{need(0, 0, 0, true)}}},               // never
+		{{Ms: []MS{need(2, 1, 'b', false)}}, {Ms: []MS{need(1, 0, 'b', false)}}}, // second==b OR first==b
+		{{Ms: []MS{need(1, 0, 'a', false), need(2, 1, 'b', false)}}},             // first==a AND second==b
 	}
 }
 
@@ -246,7 +246,7 @@ func genList(t *rapid.T, depth int) []RS {
 			k := rapid.IntRange(0, 9).Draw(t, "hkind")
 			switch {
 			case k <= 4:
-				r.Chain = append(r.Chain, HS{Kind: HTake, K: rapid.IntRange(0, 3).Draw(t, "k")})
+				r.Chain = append(r.Chain, HS{Kind: HTake, K: rapid.IntRange(0, 3).Draw(t, "k"), Wrap: rapid.IntRange(0, 3).Draw(t, "wrap") == 0})
 			case k <= 6 && depth > 0:
 				r.Chain = append(r.Chain, HS{Kind: HSub, Sub: genList(t, depth-1)})
 			default:
